@@ -18,7 +18,18 @@ SET_WRAPPERS = {"list", "tuple", "set", "frozenset", "sorted", "iter", "reversed
 
 
 def remaining_helper_calls(C, about=None) -> list[ast.Call]:
-    """Repo helper calls that could not be flattened into the view (optionally only those that receive `about`-related arguments)."""
+    """Opaque calls (see opaque_calls), optionally only those that receive an argument for which `about(resolved argument)` holds."""
+    M: Model = C.M
+    out = []
+    for c in opaque_calls(C):
+        if about is None or any(about(M.resolve(a)) for a in [*c.args, *[k.value for k in c.keywords]]) or (isinstance(c.func, ast.Attribute) and about(M.resolve(c.func.value))):
+            out.append(c)
+    return out
+
+
+def opaque_calls(C) -> list[ast.Call]:
+    """Calls in the view whose target is not known (callables passed around, unresolved receivers) or a repo helper that was not
+    flattened: anything may happen in there, so their presence forbids conclusions from *absence* ('nothing raises', 'nothing stores')."""
     M: Model = C.M
     out = []
     for c in _walk_own(M.fn.body):
@@ -30,10 +41,12 @@ def remaining_helper_calls(C, about=None) -> list[ast.Call]:
         try:
             cs, how = C.types.callees(ctx, orig, byname_fallback=False)
         except Exception:  # noqa: BLE001
+            out.append(c)
             continue
-        if cs and how == "repo" and not all(f.name in C.vocabulary for f in cs):
-            if about is None or any(about(M.resolve(a)) for a in [*c.args, *[k.value for k in c.keywords]]):
-                out.append(c)
+        if cs and how == "repo" and all(f.name in C.vocabulary for f in cs):
+            continue
+        if cs or how in ("unresolved", "callable-param", "byname"):
+            out.append(c)
     return out
 
 
@@ -226,8 +239,9 @@ def existence_check(C) -> None:
                     break
     if unsure:
         C.unsure(rule, naming, unsure[0][3], unsure[0][2])
-    elif hidden:
-        C.unsure(rule, first, f"`{norm(hidden[0], 60)}` receives the aliases but could not be flattened into draw: the existence check may be in there", hidden[0])
+    elif hidden or opaque_calls(C):
+        h = (hidden or opaque_calls(C))[0]
+        C.unsure(rule, first, f"`{norm(h, 60)}` could not be flattened into draw: the existence check may be in there", h)
     else:
         C.bad(rule, first, "labels are built without the aliased modules having been checked for existence: nothing between reading 'aliases' and the backend call raises for an unknown module", kind="dominance")
         C.bad(rule, naming, "an alias for an unknown module is not rejected with an error that names the module", kind="dominance")
